@@ -11,7 +11,8 @@ import gc
 from sim import devices
 from sim.canon import Log, dec_table, canon_rows, canon_row, canon_cell
 from sim.core import outcome, ddmin_lists
-from sim.devices import SimTable, SimSourceError, SOURCE_ERROR_KINDS
+from sim.devices import (SimTable, SimSourceError, SOURCE_ERROR_KINDS,
+                         INJECTED_SOURCE_FAILURES)
 from sim.gen import gen_table, FIELDS
 from sim.loader import load_petl
 from sim.sched import Sched, Violation, gen_schedule
@@ -262,7 +263,8 @@ def _run_join(e, case, log, probes):
     rs = SimTable([list(r) for r in right], mode='alias', name='right')
     view = getattr(e, kind)(ls, rs, **hkw)
     sch = Sched([view], [want_c], log=log,
-                expect_fault=lambda t, ex: isinstance(ex, SimSourceError))
+                expect_fault=lambda t, ex: isinstance(
+                    ex, INJECTED_SOURCE_FAILURES))
     try:
         for op in case['steps']:
             if op[0] == 'ARM':
